@@ -249,6 +249,18 @@ func (e *Engine) convert(st *State, v Val, from, to types.Type, pos string) Val 
 	case isString(from) && isSlice(to):
 		// []byte(s): fresh backing array holding the bytes of s
 		el := types.Unalias(to).Underlying().(*types.Slice).Elem()
+		if isInteger(el) && bitWidth(el) == 32 {
+			// []rune(s): at most one rune per byte; contents are abstracted
+			ref := e.newRef(st)
+			name := elemName(el, 0)
+			as := smt.Array(smt.BV(64), smt.BV(32))
+			arr := e.heapArr(st, name, smt.Array(smt.Int, as))
+			st.Heap[name] = c.Store(arr, ref, c.App("str.runes", as, v.Terms[0]))
+			n := c.App("str.runecount", smt.BV(64), v.Terms[0])
+			e.assume(st, c.And(c.Op("bvsle", smt.Bool, c.BVLit64(0, 64), n), c.Op("bvsle", smt.Bool, n, e.strLen(v.Terms[0])), c.Op("bvsle", smt.Bool, e.strLen(v.Terms[0]), c.BVLit64(sizeBound, 64))))
+			out.Terms = []*smt.Term{ref, c.BVLit64(0, 64), n, n}
+			return out
+		}
 		if !isInteger(el) || bitWidth(el) != 8 {
 			panic(reject("string to non-byte slice"))
 		}
@@ -412,7 +424,7 @@ func (e *Engine) mapLen(st *State, m Val) *smt.Term {
 	c := e.C
 	ln := e.heapArr(st, mn.ln, smt.Array(smt.Int, smt.BV(64)))
 	l := c.Select(ln, m.Terms[0])
-	e.assume(st, c.And(c.Op("bvsle", smt.Bool, c.BVLit64(0, 64), l), c.Op("bvsle", smt.Bool, l, c.BVLit64(1<<62, 64))))
+	e.assume(st, c.And(c.Op("bvsle", smt.Bool, c.BVLit64(0, 64), l), c.Op("bvsle", smt.Bool, l, c.BVLit64(sizeBound, 64))))
 	return c.Ite(c.Eq(m.Terms[0], c.IntLit(0)), c.BVLit64(0, 64), l)
 }
 
